@@ -16,6 +16,7 @@ mod eng_device;
 mod eng_copy;
 mod eng_mutants;
 mod eng_sfloat;
+mod eng_devio;
 
 #[global_allocator]
 static ALLOC: eng_mutants::Counting = eng_mutants::Counting;
@@ -61,6 +62,7 @@ fn exec_line(engine: &str, line: &str) -> String {
         "copy" | "tools" => eng_copy::exec(line),
         "mutants" => eng_mutants::exec(line),
         "sfloat" => eng_sfloat::exec(line),
+        "devio" => eng_devio::exec(line),
         "devdbg" => eng_device::debug_read_fault(line),
         _ => "BADENGINE".into(),
     }
@@ -97,6 +99,7 @@ fn main() {
                 "tools" => eng_copy::generate_tools(&mut sink, seed, thorough),
                 "mutants" => eng_mutants::generate(&mut sink, seed, thorough),
                 "sfloat" => eng_sfloat::generate(&mut sink, seed, thorough),
+                "devio" => eng_devio::generate(&mut sink, seed, thorough),
                 _ => {
                     eprintln!("unknown engine {engine}");
                     std::process::exit(2);
